@@ -32,15 +32,22 @@ def has_quote(x):
     return False
 
 
-def _stale_read(pair):
+def _stale_read(pair, history=()):
     """Consequence of a collision on the real code: compute with x1, then a chain configured with x2 returns x1's
-    result."""
+    result.  history: values whose keys are computed first in this process (a collision that needs them is history
+    dependent: class-level memos...)."""
     x1, x2 = pair
     key_check.module()
     root = scratch(f'stale-{os.getpid()}')
     try:
         base = root / 'data'
         rng = random.Random(0)
+        for i, h in enumerate(history):
+            try:
+                ch, _ = key_check.realise('file', h, 5, 1, root / 'hist', root / f'wh{i}', rng, global_vars={})
+                _ = ch['a'].data_path
+            except Exception:  # noqa
+                pass
         c1, _ = key_check.realise('file', x1, 5, 1, base, root / 'w1', rng, global_vars={})
         v1 = c1['a'].value
         c2, _ = key_check.realise('file', x2, 5, 1, base, root / 'w2', rng, global_vars={})
@@ -109,13 +116,20 @@ def run(ctx):
             # and disappears as soon as those are escaped
             quote_class = plain and len({esc_repr(m[1]) for m in ms}) == len(ms) and any(has_quote(m[1]) for m in ms)
             conf = run_forked(_stale_read, (x1, x2))
+            note = ''
             if not conf['same_path']:
-                raise MachineryError(f'collision of {x1!r} and {x2!r} did not reproduce on real chains')
+                # not in a fresh process: the keys were observed in a process that had hashed other values before
+                hist = [key_check.to_py(c['va']) for c in cases if c['va']['t'] in ('auto', 'inst', 'rstr')]
+                conf = run_forked(_stale_read, (x1, x2), hist)
+                note = (' - only after the keys of other parameter objects were computed in the same process '
+                        '(history dependent)')
+                if not conf['same_path']:
+                    raise MachineryError(f'collision of {x1!r} and {x2!r} did not reproduce on real chains')
             sig = ('collision:unescaped-quote-or-backslash-in-string' if quote_class
                    else f'collision:{esc_repr(x1)[:60]}|{esc_repr(x2)[:60]}')
             ctx.report(sig, f'distinct parameter values {x1!r} and {x2!r} get the same storage location {key}'
                             + (f'; a chain configured with the second returns the result computed for the first'
-                               if conf['stale'] else ''), detail={'values': [m[1] for m in ms], 'confirm': conf})
+                               if conf['stale'] else '') + note, detail={'values': [m[1] for m in ms], 'confirm': conf})
     ctx.extra['collision_groups'] = collisions
     for x in (2, 'a', [1], {'a': 1}, None, 1.5):
         k = run_forked(_swap, x)
